@@ -3,4 +3,4 @@ Require Import ExtrOcamlBasic.
 From LedgerV Require Import Base.Prelude Base.ExtractHelpers Model.PeriodCalendar Gen.PeriodSources Gen.PeriodWords Model.Period Model.PeriodExpr.
 Extraction "model_C13.ml" h_add h_mul h_div h_mod h_opp h_ltb h_eqb h_qred h_qmake h_qnum h_qden
   init dump flush_posts group_by_report bound_of_text qsum spec_intervals civil_from_days days_from_civil weekday add_dur
-  parse_text tokens_of_text.
+  parse_text tokens_of_text week_start_of_text.
